@@ -119,11 +119,11 @@ _set('C12', {
 })
 
 _set('C13', {
-    'category': 'exploration',
+    'category': 'proof',
     'design_ref': '8/C13',
-    'technique': 'Lean 4 executable specification + model, differential correspondence run (proofs in progress)',
-    'note': 'Trusted: the Lean specification (lean/DecimalModel/Spec), the Go harness and line protocol, the compiled Lean driver, GMP, the Go toolchain. The Lean model is hand-written; its agreement with the code is what the run samples.',
-    'text': "No theorem of this property is finished yet: the check is a three-way differential run (real Go code / executable Lean model of the code / executable Lean specification 'exact result rounded once' over rationals) on generated and constructed cases. ",
+    'technique': 'Lean 4 theorems (kernel-checked, axioms audited) about a model tied to the code by a per-run correspondence check',
+    'note': 'Trusted: Lean 4.33 kernel; axioms propext/Classical.choice/Quot.sound only (audited per theorem every run); the Lean specification (lean/DecimalModel/Spec); the hand-written Lean model of the Go methods (lean/DecimalModel), whose agreement with /repo is what the correspondence run of the same check samples on every run (Go harness + compiled Lean driver + line protocol); tools/gen for the regenerated parts.',
+    'text': "Theorems (Properties/C13.lean, 14; Proofs/Format 1450 lines) about the model of Append/Text/Format (DecimalModel/Text.lean): format_flags - for EVERY x, flag set, width and supported verb the output is sign ++ zero-padding ++ body, body ++ spaces, or spaces ++ sign ++ body exactly as fmt prescribes ('-' wins over '0', no zero padding of infinities, '+' / space rule, width is a minimum), format_badVerb; append_inf / append_zero - +-Inf and +-0 in every format and precision, whatever the zero's stale exponent; roundBelowQuantum_spec - below the quantum of %.<p>f the result is 0 or one quantum decided by the full value under x's mode (strict / non-strict half for the two nearest modes); rounded_copy - the digits printed are those of x rounded ONCE to n significant digits under x's own mode (via set_correct); append_e_digits / append_e_value (one digit, '.', exactly p digits, exponent of at least two digits; the printed literal denotes the rounded value), append_f_layout / append_f_below_quantum (integer digits, exactly p fraction digits, value = x rounded at the 10^-p place), append_g_choice / append_g_choice_shortest (the %e / %f switch at X < -4 or X >= eprec with strconv's eprec rule, trailing zeros removed). Hypothesis of the digit theorems: the rounded copy stays finite (always when x.exp < MaxExp); at x.exp = MaxExp with a carry the real code prints 0.00e+00 - the known finding text-rounding-carries-past-MaxExp, reported by class. Not at theorem level: the 'p' and 'b' formats and the byte-for-byte comparison with strconv/math/big on fmt layouts, decided by the run (Go's fmt on float64 / big.Float as a third voice).",
 })
 
 _set('C14', {
@@ -135,11 +135,11 @@ _set('C14', {
 })
 
 _set('C15', {
-    'category': 'exploration',
+    'category': 'proof',
     'design_ref': '8/C15',
-    'technique': 'Lean 4 executable specification + model, differential correspondence run (proofs in progress)',
-    'note': 'Trusted: the Lean specification (lean/DecimalModel/Spec), the Go harness and line protocol, the compiled Lean driver, GMP, the Go toolchain. The Lean model is hand-written; its agreement with the code is what the run samples.',
-    'text': "No theorem of this property is finished yet: the check is a three-way differential run (real Go code / executable Lean model of the code / executable Lean specification 'exact result rounded once' over rationals) on generated and constructed cases. Partial by nature: math/big (SetFloat, Float) is not modelled; its error bounds are decided by the run against the exact oracle only.",
+    'technique': 'Lean 4 theorems (kernel-checked, axioms audited) about a model tied to the code by a per-run correspondence check',
+    'note': 'Trusted: Lean 4.33 kernel; axioms propext/Classical.choice/Quot.sound only (audited per theorem every run); the Lean specification (lean/DecimalModel/Spec); the hand-written Lean model of the Go methods (lean/DecimalModel), whose agreement with /repo is what the correspondence run of the same check samples on every run (Go harness + compiled Lean driver + line protocol); tools/gen for the regenerated parts.',
+    'text': "Theorems (Properties/C15.lean, 23; Proofs/Binary, Proofs/SetFloat64): the binary specification is pinned down - floorLog2_spec, nearestBin_grid / _nearest / _tie_even / _acc / nearest_id_on_grid / _inf_iff (IEEE overflow threshold): Spec.nearestBin IS round-to-nearest-even onto the p-bit grid with subnormals and overflow, with truthful accuracy; pow2_exact - the model of pow2 (square-and-multiply at 800 digits) returns exactly 2^n for every n <= 1126; setFloat64_correct - for EVERY finite non-zero float64 bit pattern and EVERY receiver, SetFloat64 stores the exact binary value rounded once to the receiver's precision (17 if 0) and mode with truthful accuracy, setFloat64_exact_when_fits (exact whenever the decimal expansion fits), float64_expansion (every finite float64 has at most 767 digits - why 800 suffices), setFloat64_special (+-0, +-Inf, NaN -> ErrNaN with the receiver's value untouched), setFloat64_prec_mode, setFloat64_canonical. Not at theorem level, decided by the run against the exact oracle: Float64/Float32 (go through math/big's Float, not modelled; the pinned TestDecimalFloat64 encodes a double rounding - four known-finding classes), SetFloat and Float (math/big operands; 'naive' error bound checked numerically).",
 })
 
 _set('C16', {
